@@ -335,6 +335,17 @@ def _z3_site() -> str:
         name = f.f_code.co_name
         fn = f.f_code.co_filename
         if "/isla/" in fn or "/isla_formalizations/" in fn:
+            if name == "z3_solve":
+                # the interesting site is who asked z3_solve (is_valid's fallback,
+                # solve_smt_formulas_with_language_constraints, ...)
+                g = f.f_back
+                d2 = 0
+                while g is not None and d2 < 6:
+                    n2 = g.f_code.co_name
+                    if ("/isla/" in g.f_code.co_filename) and n2 not in ("<lambda>", "z3_solve"):
+                        return "z3_solve<" + n2
+                    g = g.f_back
+                    d2 += 1
             return name
         f = f.f_back
         depth += 1
@@ -372,10 +383,16 @@ class Z3Seam:
     def heal(self):
         self.healed = True
 
-    def _fault_for(self, idx: int) -> Optional[str]:
+    def _fault_for(self, idx: int, site: str = "", site_idx: int = 0) -> Optional[str]:
         if self.healed:
             return None
         for f in self.faults:
+            if f.get("site") is not None:
+                # site-specific outage: the calls number at_site_call .. +len issued by
+                # that ISLa function answer unknown (other sites are served normally)
+                if f["site"] == site and f.get("at_site_call", 0) <= site_idx < f.get("at_site_call", 0) + int(f.get("len", 1)):
+                    return "z3_site_outage"
+                continue
             start = f.get("at_call")
             if start is None:
                 continue
@@ -401,15 +418,16 @@ class Z3Seam:
             idx = seam.calls
             seam.calls += 1
             site = _z3_site()
-            seam.sites[site] = seam.sites.get(site, 0) + 1
-            fault = seam._fault_for(idx)
+            site_idx = seam.sites.get(site, 0)
+            seam.sites[site] = site_idx + 1
+            fault = seam._fault_for(idx, site, site_idx)
             timeout_ms = getattr(solver, "_sim_timeout_ms", None)
             budget = (
                 seam.default_budget
                 if timeout_ms is None
                 else max(1000, int(timeout_ms) * seam.rlimit_per_ms)
             )
-            if fault in ("z3_unknown", "z3_outage"):
+            if fault in ("z3_unknown", "z3_outage", "z3_site_outage"):
                 seam.fired[fault] = seam.fired.get(fault, 0) + 1
                 seam.active_fault_in_window = True
                 seam.log.add("z3", idx, site, "unknown*", 0)
